@@ -434,10 +434,13 @@ mod verif_c10_cleanup {
     // T3 overlaps the range and its slots 0..=1 are empty, but it holds an entry: nothing may be freed.
     // (An emptiness check restricted to the slots inside the range frees T3, then T2, T1.)
     //@ obligation C10 C10.window_p1.only_empty_overlapping_tables_freed bounded="concrete pre-state scenario window_p1; pool of 7 tables"
+    //@ obligation C09 C09.window_p1.only_empty_overlapping_tables_freed bounded="concrete pre-state scenario window_p1; pool of 7 tables"
     //@ obligation C10 C10.window_p1.each_once_after_unlink bounded="concrete pre-state scenario window_p1; pool of 7 tables"
     //@ obligation C10 C10.window_p1.no_empty_table_left_inside_range bounded="concrete pre-state scenario window_p1; pool of 7 tables"
     //@ obligation C10 C10.window_p1.only_parent_slots_of_freed_tables_change bounded="concrete pre-state scenario window_p1; pool of 7 tables"
+    //@ obligation C09 C09.window_p1.only_parent_slots_of_freed_tables_change bounded="concrete pre-state scenario window_p1; pool of 7 tables"
     //@ obligation C10 C10.window_p1.translation_unchanged bounded="concrete pre-state scenario window_p1; pool of 7 tables"
+    //@ obligation C01 C01.window_p1.translation_unchanged bounded="concrete pre-state scenario window_p1; pool of 7 tables"
     //@ obligation C10 C10.window_p1.repeat_frees_nothing bounded="concrete pre-state scenario window_p1; pool of 7 tables"
     #[kani::proof]
     #[kani::unwind(513)]
@@ -456,10 +459,13 @@ mod verif_c10_cleanup {
     // e.g. a swapped-out marker). Range = exactly the 2 MiB span of T3. T3 lies wholly inside: must be freed.
     // T2 then has slot 0 clear but still holds the word in slot 3 (outside the range): must be kept.
     //@ obligation C10 C10.window_p2.only_empty_overlapping_tables_freed bounded="concrete pre-state scenario window_p2; pool of 7 tables"
+    //@ obligation C09 C09.window_p2.only_empty_overlapping_tables_freed bounded="concrete pre-state scenario window_p2; pool of 7 tables"
     //@ obligation C10 C10.window_p2.each_once_after_unlink bounded="concrete pre-state scenario window_p2; pool of 7 tables"
     //@ obligation C10 C10.window_p2.no_empty_table_left_inside_range bounded="concrete pre-state scenario window_p2; pool of 7 tables"
     //@ obligation C10 C10.window_p2.only_parent_slots_of_freed_tables_change bounded="concrete pre-state scenario window_p2; pool of 7 tables"
+    //@ obligation C09 C09.window_p2.only_parent_slots_of_freed_tables_change bounded="concrete pre-state scenario window_p2; pool of 7 tables"
     //@ obligation C10 C10.window_p2.translation_unchanged bounded="concrete pre-state scenario window_p2; pool of 7 tables"
+    //@ obligation C01 C01.window_p2.translation_unchanged bounded="concrete pre-state scenario window_p2; pool of 7 tables"
     //@ obligation C10 C10.window_p2.repeat_frees_nothing bounded="concrete pre-state scenario window_p2; pool of 7 tables"
     #[kani::proof]
     #[kani::unwind(513)]
@@ -481,10 +487,13 @@ mod verif_c10_cleanup {
     // windows. Only T3 may and must go. Descending into the 1 GiB entry dereferences null; descending into
     // the 2 MiB entry finds the all-zero table 4, "frees" the data frame F[4] and unmaps the 2 MiB page.
     //@ obligation C10 C10.huge_pages.only_empty_overlapping_tables_freed bounded="concrete pre-state scenario huge_pages; pool of 7 tables"
+    //@ obligation C09 C09.huge_pages.only_empty_overlapping_tables_freed bounded="concrete pre-state scenario huge_pages; pool of 7 tables"
     //@ obligation C10 C10.huge_pages.each_once_after_unlink bounded="concrete pre-state scenario huge_pages; pool of 7 tables"
     //@ obligation C10 C10.huge_pages.no_empty_table_left_inside_range bounded="concrete pre-state scenario huge_pages; pool of 7 tables"
     //@ obligation C10 C10.huge_pages.only_parent_slots_of_freed_tables_change bounded="concrete pre-state scenario huge_pages; pool of 7 tables"
+    //@ obligation C09 C09.huge_pages.only_parent_slots_of_freed_tables_change bounded="concrete pre-state scenario huge_pages; pool of 7 tables"
     //@ obligation C10 C10.huge_pages.translation_unchanged bounded="concrete pre-state scenario huge_pages; pool of 7 tables"
+    //@ obligation C01 C01.huge_pages.translation_unchanged bounded="concrete pre-state scenario huge_pages; pool of 7 tables"
     //@ obligation C10 C10.huge_pages.repeat_frees_nothing bounded="concrete pre-state scenario huge_pages; pool of 7 tables"
     #[kani::proof]
     #[kani::unwind(513)]
@@ -503,10 +512,13 @@ mod verif_c10_cleanup {
     // Range = exactly the span of T4 (0x20_0000 ..= 0x3f_f000). T4 must go; T3 and T5 do not overlap the
     // range and must stay (they go when the sub-range handed down is not clamped to the range).
     //@ obligation C10 C10.middle_p1.only_empty_overlapping_tables_freed bounded="concrete pre-state scenario middle_p1; pool of 7 tables"
+    //@ obligation C09 C09.middle_p1.only_empty_overlapping_tables_freed bounded="concrete pre-state scenario middle_p1; pool of 7 tables"
     //@ obligation C10 C10.middle_p1.each_once_after_unlink bounded="concrete pre-state scenario middle_p1; pool of 7 tables"
     //@ obligation C10 C10.middle_p1.no_empty_table_left_inside_range bounded="concrete pre-state scenario middle_p1; pool of 7 tables"
     //@ obligation C10 C10.middle_p1.only_parent_slots_of_freed_tables_change bounded="concrete pre-state scenario middle_p1; pool of 7 tables"
+    //@ obligation C09 C09.middle_p1.only_parent_slots_of_freed_tables_change bounded="concrete pre-state scenario middle_p1; pool of 7 tables"
     //@ obligation C10 C10.middle_p1.translation_unchanged bounded="concrete pre-state scenario middle_p1; pool of 7 tables"
+    //@ obligation C01 C01.middle_p1.translation_unchanged bounded="concrete pre-state scenario middle_p1; pool of 7 tables"
     //@ obligation C10 C10.middle_p1.repeat_frees_nothing bounded="concrete pre-state scenario middle_p1; pool of 7 tables"
     #[kani::proof]
     #[kani::unwind(513)]
@@ -524,10 +536,13 @@ mod verif_c10_cleanup {
     // two_p1_boundary: T2[0] -> T3 (empty), T2[1] -> T4 (maps its page 7). Range = last page of T3 ..= first
     // page of T4. T3 overlaps and is empty (may go, need not: it is not wholly inside); T4 holds an entry.
     //@ obligation C10 C10.two_p1_boundary.only_empty_overlapping_tables_freed bounded="concrete pre-state scenario two_p1_boundary; pool of 7 tables"
+    //@ obligation C09 C09.two_p1_boundary.only_empty_overlapping_tables_freed bounded="concrete pre-state scenario two_p1_boundary; pool of 7 tables"
     //@ obligation C10 C10.two_p1_boundary.each_once_after_unlink bounded="concrete pre-state scenario two_p1_boundary; pool of 7 tables"
     //@ obligation C10 C10.two_p1_boundary.no_empty_table_left_inside_range bounded="concrete pre-state scenario two_p1_boundary; pool of 7 tables"
     //@ obligation C10 C10.two_p1_boundary.only_parent_slots_of_freed_tables_change bounded="concrete pre-state scenario two_p1_boundary; pool of 7 tables"
+    //@ obligation C09 C09.two_p1_boundary.only_parent_slots_of_freed_tables_change bounded="concrete pre-state scenario two_p1_boundary; pool of 7 tables"
     //@ obligation C10 C10.two_p1_boundary.translation_unchanged bounded="concrete pre-state scenario two_p1_boundary; pool of 7 tables"
+    //@ obligation C01 C01.two_p1_boundary.translation_unchanged bounded="concrete pre-state scenario two_p1_boundary; pool of 7 tables"
     //@ obligation C10 C10.two_p1_boundary.repeat_frees_nothing bounded="concrete pre-state scenario two_p1_boundary; pool of 7 tables"
     #[kani::proof]
     #[kani::unwind(513)]
@@ -544,10 +559,13 @@ mod verif_c10_cleanup {
 
     // empty_range: the all-empty chain of chain_p1_span, but start > end: no table overlaps an empty range.
     //@ obligation C10 C10.empty_range.only_empty_overlapping_tables_freed bounded="concrete pre-state scenario empty_range; pool of 7 tables"
+    //@ obligation C09 C09.empty_range.only_empty_overlapping_tables_freed bounded="concrete pre-state scenario empty_range; pool of 7 tables"
     //@ obligation C10 C10.empty_range.each_once_after_unlink bounded="concrete pre-state scenario empty_range; pool of 7 tables"
     //@ obligation C10 C10.empty_range.no_empty_table_left_inside_range bounded="concrete pre-state scenario empty_range; pool of 7 tables"
     //@ obligation C10 C10.empty_range.only_parent_slots_of_freed_tables_change bounded="concrete pre-state scenario empty_range; pool of 7 tables"
+    //@ obligation C09 C09.empty_range.only_parent_slots_of_freed_tables_change bounded="concrete pre-state scenario empty_range; pool of 7 tables"
     //@ obligation C10 C10.empty_range.translation_unchanged bounded="concrete pre-state scenario empty_range; pool of 7 tables"
+    //@ obligation C01 C01.empty_range.translation_unchanged bounded="concrete pre-state scenario empty_range; pool of 7 tables"
     //@ obligation C10 C10.empty_range.repeat_frees_nothing bounded="concrete pre-state scenario empty_range; pool of 7 tables"
     #[kani::proof]
     #[kani::unwind(513)]
@@ -566,10 +584,13 @@ mod verif_c10_cleanup {
     // T3. T3 is wholly inside (must go); T2 and T1 then become empty and overlap (may go; the code frees
     // them, bottom-up, each after its child).
     //@ obligation C10 C10.chain_p1_span.only_empty_overlapping_tables_freed tier=thorough bounded="concrete pre-state scenario chain_p1_span; pool of 7 tables"
+    //@ obligation C09 C09.chain_p1_span.only_empty_overlapping_tables_freed tier=thorough bounded="concrete pre-state scenario chain_p1_span; pool of 7 tables"
     //@ obligation C10 C10.chain_p1_span.each_once_after_unlink tier=thorough bounded="concrete pre-state scenario chain_p1_span; pool of 7 tables"
     //@ obligation C10 C10.chain_p1_span.no_empty_table_left_inside_range tier=thorough bounded="concrete pre-state scenario chain_p1_span; pool of 7 tables"
     //@ obligation C10 C10.chain_p1_span.only_parent_slots_of_freed_tables_change tier=thorough bounded="concrete pre-state scenario chain_p1_span; pool of 7 tables"
+    //@ obligation C09 C09.chain_p1_span.only_parent_slots_of_freed_tables_change tier=thorough bounded="concrete pre-state scenario chain_p1_span; pool of 7 tables"
     //@ obligation C10 C10.chain_p1_span.translation_unchanged tier=thorough bounded="concrete pre-state scenario chain_p1_span; pool of 7 tables"
+    //@ obligation C01 C01.chain_p1_span.translation_unchanged tier=thorough bounded="concrete pre-state scenario chain_p1_span; pool of 7 tables"
     //@ obligation C10 C10.chain_p1_span.repeat_frees_nothing tier=thorough bounded="concrete pre-state scenario chain_p1_span; pool of 7 tables"
     #[kani::proof]
     #[kani::unwind(513)]
@@ -588,10 +609,13 @@ mod verif_c10_cleanup {
     // slot 1). Range = last page of the lower half ..= first page of the upper half: it spans the
     // non-canonical hole. T1 may go; T2 holds an entry (outside the window).
     //@ obligation C10 C10.canonical_gap.only_empty_overlapping_tables_freed tier=thorough bounded="concrete pre-state scenario canonical_gap; pool of 7 tables"
+    //@ obligation C09 C09.canonical_gap.only_empty_overlapping_tables_freed tier=thorough bounded="concrete pre-state scenario canonical_gap; pool of 7 tables"
     //@ obligation C10 C10.canonical_gap.each_once_after_unlink tier=thorough bounded="concrete pre-state scenario canonical_gap; pool of 7 tables"
     //@ obligation C10 C10.canonical_gap.no_empty_table_left_inside_range tier=thorough bounded="concrete pre-state scenario canonical_gap; pool of 7 tables"
     //@ obligation C10 C10.canonical_gap.only_parent_slots_of_freed_tables_change tier=thorough bounded="concrete pre-state scenario canonical_gap; pool of 7 tables"
+    //@ obligation C09 C09.canonical_gap.only_parent_slots_of_freed_tables_change tier=thorough bounded="concrete pre-state scenario canonical_gap; pool of 7 tables"
     //@ obligation C10 C10.canonical_gap.translation_unchanged tier=thorough bounded="concrete pre-state scenario canonical_gap; pool of 7 tables"
+    //@ obligation C01 C01.canonical_gap.translation_unchanged tier=thorough bounded="concrete pre-state scenario canonical_gap; pool of 7 tables"
     //@ obligation C10 C10.canonical_gap.repeat_frees_nothing tier=thorough bounded="concrete pre-state scenario canonical_gap; pool of 7 tables"
     #[kani::proof]
     #[kani::unwind(513)]
@@ -609,10 +633,13 @@ mod verif_c10_cleanup {
     // last_page: the all-empty chain through slot 511 of every level; range = the last 2 MiB of the address
     // space (ends at 0xffff_ffff_ffff_f000). T3 must go, T2 and T1 may.
     //@ obligation C10 C10.last_page.only_empty_overlapping_tables_freed tier=thorough bounded="concrete pre-state scenario last_page; pool of 7 tables"
+    //@ obligation C09 C09.last_page.only_empty_overlapping_tables_freed tier=thorough bounded="concrete pre-state scenario last_page; pool of 7 tables"
     //@ obligation C10 C10.last_page.each_once_after_unlink tier=thorough bounded="concrete pre-state scenario last_page; pool of 7 tables"
     //@ obligation C10 C10.last_page.no_empty_table_left_inside_range tier=thorough bounded="concrete pre-state scenario last_page; pool of 7 tables"
     //@ obligation C10 C10.last_page.only_parent_slots_of_freed_tables_change tier=thorough bounded="concrete pre-state scenario last_page; pool of 7 tables"
+    //@ obligation C09 C09.last_page.only_parent_slots_of_freed_tables_change tier=thorough bounded="concrete pre-state scenario last_page; pool of 7 tables"
     //@ obligation C10 C10.last_page.translation_unchanged tier=thorough bounded="concrete pre-state scenario last_page; pool of 7 tables"
+    //@ obligation C01 C01.last_page.translation_unchanged tier=thorough bounded="concrete pre-state scenario last_page; pool of 7 tables"
     //@ obligation C10 C10.last_page.repeat_frees_nothing tier=thorough bounded="concrete pre-state scenario last_page; pool of 7 tables"
     #[kani::proof]
     #[kani::unwind(513)]
